@@ -76,7 +76,10 @@ class KeyIds(Obligation):
             run.ghost['digests']=[]
             A=lambda: none() if algs is None else some(VecO([mk_string(x) for x in algs]))
             typ={'ed25519':'Ed25519','ecdsa':'Ecdsa','rsa':'Rsa','rsa512':'Rsa','rsa_exact':'Rsa'}[kind]; sch={'ed25519':'Ed25519','ecdsa':'EcdsaP256Sha256','rsa':'RsaSsaPssSha256','rsa512':'RsaSsaPssSha512','rsa_exact':'RsaSsaPssSha256'}[kind]
-            outs=[]
+            outs=[]; marks=run.ghost['digest_marks']=[]
+            class _O(list):
+                def append(self2,x): list.append(self2,x); marks.append((x[0],len(run.ghost['digests'])))
+            outs=_O()
             outs.append(('new',eng.call_fn(run,self.new,[b.variant('KeyType',typ),b.variant('SignatureScheme',sch),A(),u8vec(list(value))])))
             if kind=='ed25519':
                 outs.append(('from_ed25519',eng.call_fn(run,self.from_ed,[u8vec(list(value)),A()])))
@@ -131,11 +134,12 @@ class KeyIds(Obligation):
                 rec['viol']={'kind':'construction_fails:'+name,'known_key':None,'scenario':scn,'predicted':'err','what':'constructing a well-formed %s key through %s fails'%(kind,name)}; return rec
             ids.append(byte_list(deref(b.get(deref(r).f[0],'key_id')).f[0]))
         # every path hashed exactly the reference description
-        for d in run.ghost['digests']:
+        for di,d in enumerate(run.ghost['digests']):
             same=bytes_eq(d.ghost['pre'],want)
             r,m=run.check_sat(z3.Not(same.z()))
             if r==z3.sat:
                 scn2=dict(scn); scn2['value']=[model_value(m,x) for x in g['value']]
+                scn2['via']=next((nm for nm,upto in run.ghost.get('digest_marks',[]) if di<upto),'new')      # the construction path that hashed these bytes
                 actual=hashlib.sha256(bytes(model_value(m,x) for x in d.ghost['pre'])).hexdigest()     # the id the crate computes; it differs from the reference id
                 rec['viol']={'kind':'key_id_preimage_differs_from_reference','known_key':None,'scenario':scn2,'predicted':'keyid:'+actual,'what':'the bytes hashed into the key id differ from the reference canonical description of the key'}; return rec
         # every identifier handed out is the hex text of a digest of the reference description (a path may reuse a digest computed
@@ -144,7 +148,7 @@ class KeyIds(Obligation):
             okd=[z3.And(bytes_eq(idb,hexs(d.b)).z(),bytes_eq(d.ghost['pre'],want).z()) for d in run.ghost['digests'] if len(idb)==2*len(d.b)]
             rr,m=run.check_sat(z3.Not(z3.Or(*okd)) if okd else z3.BoolVal(True))
             if rr==z3.sat:
-                scn2=dict(scn); scn2['value']=[model_value(m,x) for x in g['value']]
+                scn2=dict(scn); scn2['value']=[model_value(m,x) for x in g['value']]; scn2['via']=name
                 actual=bytes(model_value(m,x) for x in idb).decode(errors='replace')
                 rec['viol']={'kind':'key_id_is_not_the_digest_of_the_reference_description','known_key':None,'scenario':scn2,'predicted':'keyid:'+actual,'what':'the identifier reported by %s is not the SHA-256 of the reference description of this key (history: %s)'%(name,g.get('history'))}; return rec
         wk='rsa' if kind.startswith('rsa') else kind
